@@ -121,8 +121,8 @@ func (w *world) admit(a simrt.Action) {
 	l := simnet.NewLink(fmt.Sprintf("10.0.0.%d:1", 10+a.N), fmt.Sprintf("10.0.9.%d:1", 1+int(a.A)%200), func(f func()) { w.reg.GoAs(inc, "relay", f) })
 	pconf := viper.New()
 	puppet := p2p.NewSwitch(pconf)
+	puppet.SetNodePrivKey(key) // (overwrites the public key of the node info: the announced identity is set afterwards)
 	puppet.SetNodeInfo(&p2p.NodeInfo{PubKey: announce, SigndPubKey: sigHex, Moniker: "puppet", ListenAddr: "10.0.9.1:1", Version: "0.1.0"})
-	puppet.SetNodePrivKey(key)
 	puppet.SetExchangeData(&p2p.ExchangeData{GenesisJSON: inc.Sw.GetExchangeData().GenesisJSON})
 	var peer *p2p.Peer
 	var err, perr error
